@@ -869,7 +869,7 @@ def OP_CALL(tape: Tape, stack: Stack, cache: dict) -> None:
 
     subtape.pointer = 0
     try:
-        run_tape(subtape, stack, cache, additional_flags=tape.flags)
+        run_tape(subtape, stack, cache, additional_flags={**tape.flags})
     finally:
         subtape.pointer = init_pointer
     if 'returned' in cache:
@@ -1278,7 +1278,7 @@ def OP_LOOP(tape: Tape, stack: Stack, cache: dict) -> None:
 
     while bytes_to_bool(condition):
         sert(count < tape.callstack_limit, 'OP_LOOP limit exceeded')
-        run_tape(subtape, stack, cache)
+        run_tape(subtape, stack, cache, additional_flags={**tape.flags})
         if 'returned' in cache:
             del cache['returned']
             return
